@@ -310,6 +310,10 @@ where
                 Selected::Transport(Ok(Message::Shutdown(Shutdown))) => wait_for_shutdown = false,
                 Selected::TransportFlushed(Ok(())) => self.flush_transport = false,
 
+                // The broker has already sent its Shutdown and is free to close the transport right
+                // away. Everything up to and including our own Shutdown has been received by it.
+                Selected::Transport(Err(_)) if !wait_for_shutdown => return Ok(()),
+
                 Selected::Transport(Err(e)) | Selected::TransportFlushed(Err(e)) => {
                     return Err(RunError::Transport(e))
                 }
